@@ -3,8 +3,8 @@
 import json, os, sys
 ROOT = os.path.dirname(os.path.dirname(os.path.abspath(__file__)))
 sys.path.insert(0, os.path.join(ROOT, "lib"))
-from registry import PROPS
-from manifest_text import TEXT, NOT_YET, HOOK_COMMITS
+from registry import PROPS, MANIFEST_TEXT as TEXT
+from manifest_text import NOT_YET, HOOK_COMMITS
 
 ALL = ["C%02d" % i for i in range(1, 20)]
 checks = []
